@@ -109,6 +109,7 @@ type FB struct {
 	nnPhis       map[*ssa.Phi]bool
 	nnDone       bool
 	joinBusy     bool
+	canonAll     bool
 	storedFields map[*types.Var]bool
 	ptrBits      int
 }
@@ -416,6 +417,14 @@ func (fb *FB) lin1(v ssa.Value) Lin {
 		}
 	case *ssa.ChangeType:
 		return fb.lin(x.X)
+	case *ssa.Extract:
+		// first result of a checked-arithmetic helper (utils.SafeMultiply(a, k), SafeAdd ...): on the success path it is the
+		// plain product / sum of the arguments; the failure path returns before the value is used (error discipline: C17)
+		if x.Index == 0 && isIntType(x.Type()) {
+			if l, ok := fb.linThroughHelper(x); ok {
+				return l
+			}
+		}
 	case *ssa.Call:
 		if b, ok := x.Call.Value.(*ssa.Builtin); ok && len(x.Call.Args) == 1 {
 			switch b.Name() {
@@ -1118,6 +1127,8 @@ func (fb *FB) condFacts(cond ssa.Value, val bool, out []Lin) []Lin {
 		if x.Op == token.NOT {
 			return fb.condFacts(x.X, !val, out)
 		}
+	case *ssa.Call:
+		out = fb.boolHelperFacts(x, val, out)
 	case *ssa.Lookup:
 		// set[x] for a set built in this function from constant keys (all values true): on the true edge x is one of the keys
 		if val && !x.CommaOk {
@@ -2107,4 +2118,246 @@ func (fb *FB) narrowOpFits(x *ssa.BinOp) bool {
 		lo, hi = alo<<uint(blo), ahi<<uint(bhi)
 	}
 	return lo >= tlo && hi <= thi
+}
+
+// linThroughHelper: ex is result 0 of a static call to a module helper whose single success return computes its value from
+// the parameters by +, -, * (one factor constant after binding); gives that expression over the caller's arguments.
+func (fb *FB) linThroughHelper(ex *ssa.Extract) (Lin, bool) {
+	call, ok := ex.Tuple.(*ssa.Call)
+	if !ok {
+		return Lin{}, false
+	}
+	callee := call.Call.StaticCallee()
+	if callee == nil || callee.Blocks == nil || !inModule(fnPkgPath(callee)) || len(callee.Params) != len(call.Call.Args) || len(callee.Blocks) > 6 {
+		return Lin{}, false
+	}
+	eidx := errResultIndex(callee.Signature)
+	if eidx < 0 {
+		return Lin{}, false
+	}
+	var rv ssa.Value
+	for _, b := range callee.Blocks {
+		rt, ok := b.Instrs[len(b.Instrs)-1].(*ssa.Return)
+		if !ok || len(rt.Results) <= eidx {
+			continue
+		}
+		if !isNilConst(rt.Results[eidx]) {
+			continue
+		}
+		if rv != nil {
+			return Lin{}, false
+		}
+		rv = rt.Results[0]
+	}
+	if rv == nil {
+		return Lin{}, false
+	}
+	var tr func(v ssa.Value, d int) (Lin, bool)
+	tr = func(v ssa.Value, d int) (Lin, bool) {
+		if d > 6 {
+			return Lin{}, false
+		}
+		switch y := v.(type) {
+		case *ssa.Const:
+			if k, ok := constInt(y); ok {
+				return linConst(k), true
+			}
+		case *ssa.Parameter:
+			if i := paramIndex(callee, y); i >= 0 {
+				return fb.lin(call.Call.Args[i]), true
+			}
+		case *ssa.Convert:
+			if isIntType(y.Type()) && isIntType(y.X.Type()) {
+				return tr(y.X, d+1)
+			}
+		case *ssa.BinOp:
+			a, ok1 := tr(y.X, d+1)
+			b, ok2 := tr(y.Y, d+1)
+			if !ok1 || !ok2 {
+				return Lin{}, false
+			}
+			switch y.Op {
+			case token.ADD:
+				return a.add(b, 1), true
+			case token.SUB:
+				return a.add(b, -1), true
+			case token.MUL:
+				if a.isConst() && abs64(a.C) < 1<<31 {
+					return b.scale(a.C), true
+				}
+				if b.isConst() && abs64(b.C) < 1<<31 {
+					return a.scale(b.C), true
+				}
+			}
+		}
+		return Lin{}, false
+	}
+	return tr(rv, 0)
+}
+
+// ---- facts of pure bool helpers (`if !it.hasCurrent() { return }`) ----
+
+// fieldPath: v is a load through a chain of field selections that starts at a parameter of fn: (parameter index, fields).
+func fieldPath(fn *ssa.Function, v ssa.Value) (int, []*types.Var, bool) {
+	var fields []*types.Var
+	cur := v
+	for i := 0; i < 6; i++ {
+		ld, ok := isLoad(cur)
+		if !ok {
+			return 0, nil, false
+		}
+		fa, ok := ld.X.(*ssa.FieldAddr)
+		if !ok {
+			return 0, nil, false
+		}
+		f, _ := fieldOfAddr(fa)
+		if f == nil {
+			return 0, nil, false
+		}
+		fields = append([]*types.Var{f}, fields...)
+		if p, isP := fa.X.(*ssa.Parameter); isP {
+			idx := paramIndex(fn, p)
+			return idx, fields, idx >= 0
+		}
+		cur = fa.X
+	}
+	return 0, nil, false
+}
+
+// pathValue: the caller's canonical load of root.f1.f2... (nil if the caller never reads it or stores to one of the fields).
+func (fb *FB) pathValue(root ssa.Value, fields []*types.Var) ssa.Value {
+	if !fb.canonAll {
+		fb.canonAll = true
+		instrs(fb.fn, func(in ssa.Instruction) {
+			if u, ok := in.(*ssa.UnOp); ok && u.Op == token.MUL {
+				fb.canon(u)
+			}
+		})
+	}
+	cur := fb.canon(root)
+	for _, f := range fields {
+		if fb.storedFields[f] {
+			return nil
+		}
+		c, ok := fb.canonMap[canonKey{base: cur, field: f, idx: -1}]
+		if !ok {
+			return nil
+		}
+		cur = c
+	}
+	return cur
+}
+
+func pureFunction(fn *ssa.Function) bool {
+	pure := true
+	instrs(fn, func(in ssa.Instruction) {
+		switch x := in.(type) {
+		case *ssa.Store, *ssa.MapUpdate, *ssa.Send, *ssa.Go, *ssa.Defer:
+			pure = false
+		case *ssa.Call:
+			if _, isB := x.Call.Value.(*ssa.Builtin); !isB {
+				pure = false
+			}
+		}
+	})
+	return pure
+}
+
+// boolHelperFacts: call is a static call of a pure module function with one bool result; appends what is known in the caller
+// when it returned val: the facts common to every return that can yield val, with parameters, their lengths and the fields
+// read through them re-expressed over the caller's values.
+func (fb *FB) boolHelperFacts(call *ssa.Call, val bool, out []Lin) []Lin {
+	callee := call.Call.StaticCallee()
+	if callee == nil || callee.Blocks == nil || !inModule(fnPkgPath(callee)) || len(callee.Params) != len(call.Call.Args) || callee == fb.fn {
+		return out
+	}
+	res := callee.Signature.Results()
+	if res.Len() != 1 {
+		return out
+	}
+	if b, ok := res.At(0).Type().Underlying().(*types.Basic); !ok || b.Kind() != types.Bool {
+		return out
+	}
+	if len(callee.Blocks) > 12 || !pureFunction(callee) {
+		return out
+	}
+	cfb := fb.c.FB(callee)
+	var alts [][]Lin
+	for _, ret := range returnsOf(callee) {
+		v := ret.Results[0]
+		switch x := v.(type) {
+		case *ssa.Const:
+			if constant.BoolVal(x.Value) == val {
+				alts = append(alts, cfb.blockFacts(ret.Block()))
+			}
+		case *ssa.Phi:
+			for i, e := range x.Edges {
+				pred := x.Block().Preds[i]
+				if k, isK := e.(*ssa.Const); isK {
+					if constant.BoolVal(k.Value) == val {
+						alts = append(alts, cfb.edgeFacts(pred, x.Block()))
+					}
+					continue
+				}
+				alts = append(alts, cfb.condFacts(e, val, cfb.edgeFacts(pred, x.Block())))
+			}
+		default:
+			alts = append(alts, cfb.condFacts(v, val, append([]Lin{}, cfb.blockFacts(ret.Block())...)))
+		}
+	}
+	if len(alts) == 0 {
+		return out
+	}
+	common := alts[0]
+	for _, a := range alts[1:] {
+		var inter []Lin
+		for _, f := range common {
+			for _, g := range a {
+				if f.equal(g) {
+					inter = append(inter, f)
+					break
+				}
+			}
+		}
+		common = inter
+	}
+	for _, f := range common {
+		l := linConst(f.C)
+		ok := true
+		for k, coef := range f.T {
+			var arg Lin
+			good := false
+			switch kk := k.(type) {
+			case *ssa.Parameter:
+				if i := paramIndex(callee, kk); i >= 0 {
+					arg, good = fb.lin(call.Call.Args[i]), true
+				}
+			case lenKey:
+				if p, isP := kk.v.(*ssa.Parameter); isP {
+					if i := paramIndex(callee, p); i >= 0 {
+						arg, good = fb.lenLin(call.Call.Args[i]), true
+					}
+				} else if i, fields, isPath := fieldPath(callee, kk.v); isPath {
+					if pv := fb.pathValue(call.Call.Args[i], fields); pv != nil {
+						arg, good = fb.lenLin(pv), true
+					}
+				}
+			case ssa.Value:
+				if i, fields, isPath := fieldPath(callee, kk); isPath {
+					if pv := fb.pathValue(call.Call.Args[i], fields); pv != nil {
+						arg, good = fb.lin(pv), true
+					}
+				}
+			}
+			if !good {
+				ok = false
+				break
+			}
+			l = l.add(arg, coef)
+		}
+		if ok {
+			out = append(out, l)
+		}
+	}
+	return out
 }
